@@ -23,7 +23,7 @@ pub fn property() -> Property {
         id: "C09",
         rule: "cases = (dataset: separated blobs | overlapping cloud | few distinct points repeated | integer lattice, n 1..=80 (200 thorough; 600/2000 in `large`), \
                p 1..=4, f32|f64, coordinates scaled by 1, 2^10 or 2^-10; k 1..=min(n,6); metric L2|L1|Linf; init Random|KMeans++|KMeans|||Precomputed (data rows with repeats, \
-               free values possibly outside the data, half-integer offsets); budget 1..=12 or 300; tolerance never|1e-4|1e-1; n_runs 1..=4; seed; fresh queries). \
+               free values possibly outside the data, half-integer offsets); memory layout of records / precomputed centroids / query batches row-major|column-major|strided; budget 1..=12 or 300; tolerance never|1e-4|1e-1; n_runs 1..=4; seed; fresh queries). \
                Non-trivial: trajectory = at least two Lloyd steps that change the assignment, or an exact tie in an assignment step, or duplicate points; \
                restarts = n_runs >= 2 and the single runs end in different centroids, or duplicate points; \
                assign/large = an exactly tied query, duplicate points, or at least two clusters used by the training points. \
@@ -38,18 +38,19 @@ pub fn property() -> Property {
             "bounding box slack (2n+8) eps scale (steady-state rounding excursion of a convex combination), box = data, plus the precomputed start when it lies outside".into(),
             "statistics are judged only for runs shown converged (identical centroids for budgets m and m+1 of the same deterministic run): counts must contain every point whose nearest centroid is clear by more than 2 tolerance, inertia within mean(tolerance (2 d_i + tolerance)) (L2) or tolerance (L1/Linf) of the mean minimal reduced distance".into(),
             "restarts: Random, KMeans++ and Precomputed consume the caller's RNG as a prefix-stable stream (measured with a counting wrapper around Xoshiro256+; cases where that does not hold are skipped); KMeans|| is excluded (per-thread streams)".into(),
+            "memory layout: training records and query batches are passed row-major, column-major (owned) or as a strided view (every second row of a doubled array); precomputed centroids row-major, column-major or as to_owned() of a transpose; the oracles are layout-blind; additionally the fitted model and transform must be bit-identical to the row-major twin (same values, same per-row arithmetic); a model with non-row-major centroids is obtained through one fit_with(None, ..) step and judged for predict/transform only".into(),
             "trusted: ndarray, rand/rand_xoshiro, the harness' naive reference code".into(),
         ],
         subs: vec![
             prop_sub("trajectory", 40000, 400000, |t: Tier| cases::trajectory_case(t), checks::check_trajectory)
                 .chunks(16)
-                .require(&["two_or_more_reassigning_steps", "exact_tie_in_assignment", "converged_run_statistics_judged", "stopped_within_budget"]),
+                .require(&["precomputed_column_major", "precomputed_transposed_owned", "records_strided_view", "two_or_more_reassigning_steps", "exact_tie_in_assignment", "converged_run_statistics_judged", "stopped_within_budget"]),
             prop_sub("restarts", 30000, 300000, |t: Tier| cases::restarts_case(t), checks::check_restarts)
                 .chunks(16)
                 .require(&["best_run_is_not_last", "runs_reach_different_centroids", "best_run_converged"]),
             prop_sub("assign", 60000, 600000, |t: Tier| cases::assign_case(t), checks::check_assign)
                 .chunks(16)
-                .require(&["exact_tie_query", "init_para", "fewer_distinct_points_than_k", "fresh_queries"]),
+                .require(&["precomputed_column_major", "model_centroids_not_row_major", "records_column_major", "row_major_twin_compared", "exact_tie_query", "init_para", "fewer_distinct_points_than_k", "fresh_queries"]),
             prop_sub("large", 64, 300, |t: Tier| cases::large_case(t), checks::check_large).chunks(8),
         ],
     }
